@@ -52,6 +52,18 @@ QPut(s, k, v) ==
     IN Q2([tv.s EXCEPT !.recent = PushMRU(tv.s.recent, Ent(k, v)), !.ghost = pg.l],
           IF pg.out = <<>> THEN RPut ELSE REvicted(pg.out[1]))
 
+\* The other admissible order on a ghost hit in a full cache (the statement is silent on it, DESIGN 3.3 ii): the hit
+\* key leaves the ghost list FIRST, so the victim always finds room there and nothing is pushed out of the ghost list.
+QPutAlt(s, k, v) ==
+  IF ~Has(s.frequent, k) /\ ~Has(s.recent, k) /\ Has(s.ghost, k) /\ Resident(s) >= Size THEN
+    LET old == ValOf(s.ghost, k)
+        s1 == [s EXCEPT !.ghost = Without(s.ghost, k)]
+        tv == TakeVictim(s1, Len(s1.recent) > Q)
+        pg == PushCap(tv.s.ghost, tv.e, G)
+    IN Q2([tv.s EXCEPT !.ghost = pg.l, !.frequent = PushMRU(tv.s.frequent, Ent(k, v))],
+          IF pg.out = <<>> THEN RUpdate(old) ELSE REvictedAndUpdate(pg.out[1], old))
+  ELSE QPut(s, k, v)
+
 QGet(s, k, w) ==
   IF Has(s.frequent, k) THEN
     Q2([s EXCEPT !.frequent = QWriteIf(Touch(s.frequent, k), k, w)], RSome(ValOf(s.frequent, k)))
